@@ -83,7 +83,7 @@ def project(c):
     src = c.pick(DOCS)
     dst = c.pick([d for d in DOCS if d != src])
     titles = {d: "Title %s" % d.replace("/", " ") for d in DOCS}
-    spelling = c.pick(["rel", "dot-rel", "abs", "noext", "project", "project-abs", "label", "label-missing", "missing-doc", "path-file", "rel-file", "anchor", "anchor-missing", "project-anchor", "self-anchor", "dup-anchor", "path-file-image", "project-missing", "excluded-doc", "label-missing-upper", "self-file-foreign-label"])
+    spelling = c.pick(["rel", "dot-rel", "abs", "noext", "project", "project-abs", "label", "label-missing", "missing-doc", "path-file", "rel-file", "anchor", "anchor-missing", "project-anchor", "self-anchor", "dup-anchor", "path-file-image", "project-missing", "excluded-doc", "label-missing-upper", "self-file-foreign-label", "rel-file-noext", "anchor-missing-noslugs"])
     explicit = bool(c.choose(2))
     srcdir = posixpath.dirname(src)
     rel = posixpath.normpath(posixpath.join(posixpath.relpath(posixpath.dirname(dst) or ".", srcdir or "."), posixpath.basename(dst)))
@@ -133,6 +133,14 @@ def project(c):
     elif spelling == "rel-file":
         dest = posixpath.relpath("assets/data.txt", srcdir or ".")
         kind = "file"
+    elif spelling == "rel-file-noext":
+        # an existing non-document file whose name has no extension
+        dest = posixpath.relpath("assets/LICENSE", srcdir or ".")
+        kind = "file"
+    elif spelling == "anchor-missing-noslugs":
+        # a document without any heading (it records no slugs at all): a fragment of it is still a missing anchor
+        dest = posixpath.relpath("plain", srcdir or ".") + ".md#no-such-anchor"
+        kind = "missing-anchor"
     elif spelling == "anchor":
         dest = rel + ".md#" + anchor_written(dst)
         anchor = anchor_id(dst)
@@ -165,6 +173,8 @@ def project(c):
 def write_project(d, spec):
     os.makedirs(os.path.join(d, "assets"), exist_ok=True)
     open(os.path.join(d, "assets", "data.txt"), "w").write("data\n")
+    open(os.path.join(d, "assets", "LICENSE"), "w").write("licence text\n")
+    open(os.path.join(d, "plain.md"), "w").write("---\norphan: true\n---\n\njust a paragraph, no heading\n")
     open(os.path.join(d, "conf.py"), "w").write("extensions = ['myst_parser']\nmyst_heading_anchors = 2\nexclude_patterns = ['_build', 'excluded*']\nsuppress_warnings = ['toc.not_included', 'toc.not_readable']\n"
                                               # entries that are only PREFIXES of the unresolvable destinations used below: they must silence nothing
                                               "nitpick_ignore_regex = [('myst', 'lbl-no'), ('myst', r'\\.\\./nosuch'), ('myst', 'nosuch'), ('myst', '.*no-such')]\n"
@@ -266,10 +276,11 @@ def check(refs, warn, spec):
         if nmiss:
             return ("spurious-warning", "resolvable link %r produced a warning: %r" % (spec["md"], warn[:300]))
     elif kind == "file":
-        if r["tag"] != "download_reference" and not (r["refuri"] or "").endswith("data.txt"):
+        fname = posixpath.basename(spec["dest"])
+        if r["tag"] != "download_reference" and not (r["refuri"] or "").endswith(fname):
             return ("file-link", "link %r to a non-document file became %r" % (spec["md"], r))
-        if r["tag"] == "download_reference" and (not r["filename"] or not posixpath.normpath(r["reftarget"] or "").endswith("assets/data.txt")):
-            return ("file-link", "link %r: download target %r, collected file %r (expected assets/data.txt)" % (spec["md"], r["reftarget"], r["filename"]))
+        if r["tag"] == "download_reference" and (not r["filename"] or not posixpath.normpath(r["reftarget"] or "").endswith("assets/" + fname)):
+            return ("file-link", "link %r: download target %r, collected file %r (expected assets/%s)" % (spec["md"], r["reftarget"], r["filename"], fname))
         if spec["spelling"] == "path-file-image" and not r.get("has_image"):
             return ("link-content-lost", "link %r: the image that is the link's content is gone (%r)" % (spec["md"], r))
         if nmiss or "not readable" in warn.replace("image file not readable", ""):
